@@ -1598,7 +1598,12 @@ class Generator:
         this = self.sql(expression, "this")
         if self.dialect.BIT_START:
             return f"{self.dialect.BIT_START}{this}{self.dialect.BIT_END}"
-        return f"{int(this, 2)}"
+        try:
+            return f"{int(this, 2)}"
+        except ValueError:
+            # The tokenizer doesn't validate an empty literal (b'')
+            self.unsupported(f"Bit string '{this}' has no integer representation")
+            return "0"
 
     def hexstring_sql(
         self, expression: exp.HexString, binary_function_repr: str | None = None
@@ -1612,7 +1617,12 @@ class Generator:
             # Integer representation will be returned if:
             # - The read dialect treats the hex value as integer literal but not the write
             # - The transpilation is not supported (write dialect hasn't set HEX_START or the param flag)
-            return f"{int(this, 16)}"
+            try:
+                return f"{int(this, 16)}"
+            except ValueError:
+                # The tokenizer doesn't validate an empty literal (x'')
+                self.unsupported(f"Hex string '{this}' has no integer representation")
+                return "0"
 
         if not is_integer_type:
             # Read dialect treats the hex value as BINARY/BLOB
